@@ -153,7 +153,7 @@ def level(chk, P):
         # the callee's suffix matches the builder's suffix (P -> ...MatrixP, Pt -> ...MatrixPt)
         suf = m.group(2)
         chk.judge(all(c.endswith(suf) for c in callees), "LEVEL", short + ":same-matrix", f.loc, "builder %s must call the ...Matrix%s routine, calls %s" % (short, suf, sorted(callees)))
-    chk.judge(n == 7, "LEVEL", "seven-builders", "", "constraint matrix builders found: %d" % n)
+    chk.shape(n == 7, "LEVEL", "seven-builders", "", "constraint matrix builders found: %d" % n)
 
 
 _C = "Simbody/src/Constraint.cpp"
